@@ -87,8 +87,11 @@ type stub struct {
 	Prefix string `toml:"prefix"` // hex
 	Echo   bool   `toml:"echo"`
 	SlowMs int    `toml:"slow_ms"` // read 4 bytes, pause, then read on (keeps peeked bytes pending for a while)
-	run    int
-	ch     pushers.Channel
+	// DeadlineMs: leave a write deadline this far in the future behind at the start and after every echo write
+	// (the echo writes themselves run without a deadline)
+	DeadlineMs int `toml:"write_deadline_ms"`
+	run        int
+	ch         pushers.Channel
 }
 
 type prefixStub struct{ *stub }
@@ -126,6 +129,9 @@ func (s *stub) Handle(ctx context.Context, conn net.Conn) error {
 	Stubs.mu.Unlock()
 	buf := make([]byte, 4096)
 	first := true
+	if s.DeadlineMs > 0 {
+		conn.SetWriteDeadline(time.Now().Add(time.Duration(s.DeadlineMs) * time.Millisecond))
+	}
 	for {
 		rb := buf
 		if s.SlowMs > 0 && first {
@@ -145,7 +151,13 @@ func (s *stub) Handle(ctx context.Context, conn net.Conn) error {
 		Stubs.cond.Broadcast()
 		Stubs.mu.Unlock()
 		if n > 0 && s.Echo {
+			if s.DeadlineMs > 0 {
+				conn.SetWriteDeadline(time.Time{})
+			}
 			conn.Write(buf[:n])
+			if s.DeadlineMs > 0 {
+				conn.SetWriteDeadline(time.Now().Add(time.Duration(s.DeadlineMs) * time.Millisecond))
+			}
 		}
 		if err != nil {
 			return nil
